@@ -392,7 +392,13 @@ func peerIDFromContext(ctx context.Context) (libpeer.ID, error) {
 }
 
 func (s *server) updateReplicators(rep peer.AddrInfo, collectionIDs map[string]struct{}) {
-	if len(collectionIDs) == 0 {
+	s.connectReplicator(rep, len(collectionIDs) > 0)
+	s.updateReplicatorCollections(rep, collectionIDs)
+}
+
+// connectReplicator adds the replicator to (or removes it from) the peerstore and connects to it.
+func (s *server) connectReplicator(rep peer.AddrInfo, isActive bool) {
+	if !isActive {
 		// remove peer from store
 		s.peer.host.Peerstore().ClearAddrs(rep.ID)
 	} else {
@@ -403,8 +409,10 @@ func (s *server) updateReplicators(rep peer.AddrInfo, collectionIDs map[string]s
 			log.ErrorE("Failed to connect to replicator peer", err)
 		}
 	}
+}
 
-	// update the cached replicators
+// updateReplicatorCollections updates the cached replicators.
+func (s *server) updateReplicatorCollections(rep peer.AddrInfo, collectionIDs map[string]struct{}) {
 	s.mu.Lock()
 	for collectionID, peers := range s.replicators {
 		if _, hasID := collectionIDs[collectionID]; hasID {
